@@ -28,14 +28,18 @@ rc, o = sh(f"git -C /repo worktree add -q --detach {W} HEAD")
 try:
     # demo on the unmodified tree
     e = dict(os.environ, PYTHONPATH=f"{W}/src", PYTHONHASHSEED="0")
-    shutil.copy(demo, f"{W}/demo.py")
-    rc0, o0 = sh("/venv/bin/python demo.py", cwd=W, env=e, timeout=600)
+    # the demonstration runs as the sub-agent ran it: from the worktree root, as DEMO/demo<k>.py, with its helper modules beside it
+    os.makedirs(f"{W}/DEMO", exist_ok=True)
+    for f in os.listdir(src):
+        if f.endswith(".py"):
+            shutil.copy(os.path.join(src, f), f"{W}/DEMO/{f}")
+    rc0, o0 = sh(f"/venv/bin/python DEMO/demo{k}.py", cwd=W, env=e, timeout=900)
     rc, o = sh(f"git apply {patch}", cwd=W)
     if rc != 0:
         rc, o = sh(f"patch -p1 < {patch}", cwd=W)
     if rc != 0:
         sys.exit("patch does not apply: " + o[-300:])
-    rc1, o1 = sh("/venv/bin/python demo.py", cwd=W, env=e, timeout=600)
+    rc1, o1 = sh(f"/venv/bin/python DEMO/demo{k}.py", cwd=W, env=e, timeout=900)
     out["demo"] = {"unpatched_exit": rc0, "patched_exit": rc1, "patched_output": o1.strip()[-300:]}
     rct, ot = sh("/venv/bin/python -m pytest -q -p no:cacheprovider 2>&1 | tail -8", cwd=W, timeout=1800)
     m = re.search(r"(\d+) failed, (\d+) passed", ot)
@@ -64,6 +68,9 @@ try:
     os.makedirs(d, exist_ok=True)
     shutil.copy(patch, f"{d}/patch.diff")
     shutil.copy(demo, f"{d}/demo.py")
+    for f in os.listdir(src):
+        if f.endswith(".py") and not f.startswith("demo"):
+            shutil.copy(os.path.join(src, f), f"{d}/{f}")     # helper modules of the demonstration
     notes = open(f"{src}/NOTES.md").read() if os.path.exists(f"{src}/NOTES.md") else ""
     open(f"{d}/NOTES.md", "w").write(notes)
     out["caught_by"] = [p for p, c in caught.items() if c["result"] == "caught"]
